@@ -85,7 +85,7 @@ def run(tier, seed):
         if not ok:
             v.fail_machinery("binding self-test failed")
     # grids
-    names = [n for n in campaign.campaign(tier) if campaign.CONFIGS[n]["options"].get("orthogonal", True)]
+    names = [n for n in campaign.campaign(tier) if campaign.CONFIGS[n]["options"].get("orthogonal", True)] + campaign.C04_EXTRA
     traces, gfailed = gridprops.run(v, "C04", tier, names=names)
     worst = max((x for t in traces for rg in t["c04"] for row in rg["dev"] for x in row if x != 2000000000 and x < 10000), default=0)
     v.note("grid_pairs", {"largest_non_xpoint_deviation_1e-8m": worst, "pairs": sum(len(rg["dev"]) * len(rg["dev"][0]) for t in traces for rg in t["c04"])})
